@@ -19,6 +19,8 @@ type Disk struct {
 	FailWrites int
 	// Dead: the process that owned this handle crashed; its late writes go nowhere
 	Dead bool
+	// OnCommit is called after every successful write (fault placement)
+	OnCommit func(n int)
 }
 
 type WriteOp struct {
@@ -60,6 +62,9 @@ func (d *Disk) commit(e WriteEntry) error {
 	}
 	d.apply(e)
 	d.Log = append(d.Log, e)
+	if d.OnCommit != nil {
+		d.OnCommit(len(d.Log))
+	}
 	return nil
 }
 
